@@ -24,6 +24,10 @@ I5 ::= SEQUENCE OF INTEGER (5)
 NS ::= SET OF NULL
 OS ::= SEQUENCE OF OCTET STRING (SIZE(0))
 X ::= SEQUENCE { a INTEGER, ..., b R OPTIONAL }
+XS ::= SET { a [0] INTEGER, ... }
+XC ::= CHOICE { a [0] INTEGER, ... }
+A ::= ANY
+W ::= SEQUENCE { a INTEGER, any ANY OPTIONAL }
 END
 """
 STACK = 256 * 1024      # thread stack: far above the 30000-byte default limit, far below unbounded recursion
@@ -42,6 +46,15 @@ def deep_inputs(depths):
         out.append(("O", "BER", "nest-constructed-string", d, b"\x24\x80" * d + b"\x04\x01A" + b"\0\0" * d))
         out.append(("B", "BER", "nest-constructed-string", d, b"\x23\x80" * d + b"\x03\x02\x00A" + b"\0\0" * d))
         out.append(("L", "BER", "nest-unterminated", d, b"\x30\x80" * d))
+        # nesting inside what the decoder only skips: unknown extension additions and ANY
+        nest = b"\xa5\x80" * d + b"\0\0" * d
+        out.append(("X", "BER", "nest-in-unknown-extension", d, b"\x30\x80\x02\x01\x05" + nest + b"\0\0"))
+        out.append(("X", "BER", "nest-in-unknown-extension-unterminated", d, b"\x30\x80\x02\x01\x05" + b"\xa5\x80" * d))
+        out.append(("XS", "BER", "nest-in-unknown-extension", d, b"\x31\x80\xa0\x03\x02\x01\x05" + nest + b"\0\0"))
+        out.append(("XC", "BER", "nest-in-unknown-extension", d, nest))
+        out.append(("A", "BER", "nest-in-any", d, nest))
+        out.append(("W", "BER", "nest-in-any", d, b"\x30\x80\x02\x01\x05" + nest + b"\0\0"))
+        out.append(("X", "BER", "nest-in-unknown-extension-mixed", d, b"\x30\x80\x02\x01\x05" + b"\xa5\x80\x30\x80" * (d // 2) + b"\0\0\0\0" * (d // 2) + b"\0\0"))
         if d <= 3000:
             inner = b""
             for _ in range(d):
@@ -130,7 +143,7 @@ def run(tier, seed):
                                                               "" if lim < 0 else " stack=%d" % lim), "free s=0"]
                 cases.append(drv.Case(cid, ops))
                 meta[cid] = (pdu, syn, fam, d, x, lim)
-        env = build.san_env({"VDRV_WD": "60"})
+        env = build.san_env({"VDRV_WD": "60", "VDRV_HEAPCAP": str(1 << 28)})
         res = drv.run_parallel(exe, cases, env=env, per_case_timeout=120)
         for cid, (pdu, syn, fam, d, x, lim) in meta.items():
             r = res.get(cid)
